@@ -382,6 +382,10 @@ pub fn seq_runs(id: &str, tier: &str) -> Vec<(String, SeqParams)> {
         if id == "C13" {
             r.1.reopen_subsets_up_to = if quick { 4 } else { 5 };
         }
+        // thorough: alphabets without the repeated payload branch half as much: two levels more
+        if !quick && !r.1.alphabet.dup_payload {
+            r.1.max_depth += 2;
+        }
     }
     runs
 }
@@ -752,7 +756,13 @@ fn c06_check(tier: &str, replay: Option<&str>) -> i32 {
         println!("replay of {file}: no violation of C06");
         return 0;
     }
-    let lens = lengths(quick);
+    let mut lens = lengths(quick);
+    if !quick {
+        // every single length across the first two pages and their overflow boundaries
+        lens.extend(301..=8300);
+        lens.sort();
+        lens.dedup();
+    }
     let mut items: Vec<Value> = vec![];
     for &l in &lens {
         for c in CLASSES {
@@ -897,7 +907,11 @@ fn c04_check(tier: &str, replay: Option<&str>) -> i32 {
         let big = h.iter().any(|c| matches!(c, crate::ecrash::COp::Av1m | crate::ecrash::COp::Av100k));
         let pp = if big { parts * 4 } else { parts };
         for part in 0..pp {
-            tasks.push(json!({"hist": names, "part": part, "parts": pp, "cap": cap, "pair_limit": pair_limit, "torn": !quick}));
+            // torn sectors and the larger subset cap for histories of up to two requests; length-3
+            // histories with the quick tier's adversary (the count of images grows 8x with tearing)
+            let short = h.iter().filter(|c| **c != crate::ecrash::COp::HoldConnection).count() <= 2;
+            let (cap_h, pl_h, torn_h) = if quick { (cap, pair_limit, false) } else if short { (cap, pair_limit, true) } else { (8, 16, false) };
+            tasks.push(json!({"hist": names, "part": part, "parts": pp, "cap": cap_h, "pair_limit": pl_h, "torn": torn_h}));
         }
     }
     let mut pool = crate::pool::Pool::spawn(threads(), "crash", &json!({"seed": seed()}));
